@@ -214,6 +214,8 @@ class Sets(object):
         term, desc, key, carrier, tol = res
         n = int(np.prod(desc['shape']))
         name = '%s_%s_%s' % (prefix, dtype, carrier)
+        if prefix == 'sp':          # one check term (tolerance) per set
+            name += '_e%d' % len(str(tol.denominator))
         if n >= BIG:
             k = self.nbig.get(name, 0)
             self.nbig[name] = k + 1
